@@ -177,16 +177,14 @@ class VariablesCollector(ValidationVisitor):
         if self._in_var_def:
             pass
         elif self._op is not None:
-            self._op_variables[self._op][var] = (  # type: ignore
-                node,
-                input_type,
-                input_value_def,
+            # Keep track of every usage, a variable can be used multiple
+            # times in positions expecting different types.
+            self._op_variables[self._op].setdefault(var, []).append(
+                (node, input_type, input_value_def)
             )
         elif self._fragment is not None:
-            self._fragment_variables[self._fragment][var] = (  # type: ignore
-                node,
-                input_type,
-                input_value_def,
+            self._fragment_variables[self._fragment].setdefault(var, []).append(
+                (node, input_type, input_value_def)
             )
 
     def _flatten_fragments(self):
